@@ -12,7 +12,7 @@ from .repo import ClassInfo
 EXTERNAL_CLASSES = {
     'collections.OrderedDict', 'queue.Full', 'queue.Empty',
 }
-EXTERNAL_MODULES = {'re', 'copy', 'collections', 'queue', 'threading', 'time', 'os', 'sys',
+EXTERNAL_MODULES = {'http', 'http.client', 're', 'copy', 'collections', 'queue', 'threading', 'time', 'os', 'sys',
                     'warnings', 'logging', 'os.path'}
 EXTERNAL_CONSTS = {'re.IGNORECASE': 2, 're.I': 2, 're.UNICODE': 32, 're.U': 32, 're.DOTALL': 16,
                    're.S': 16, 're.MULTILINE': 8, 're.M': 8, 're.VERBOSE': 64, 're.X': 64, 're.ASCII': 256}
@@ -215,8 +215,19 @@ def field_fn(cls, attr, kind):
     return z3.Function(f'fld_{cls}_{attr}', RefSort, kind_sort(kind))
 
 
+OPAQUE_METHODS = {
+    ('Logger', 'debug'): 'logging.debug', ('Logger', 'info'): 'logging.info',
+    ('Logger', 'warning'): 'logging.warning', ('Logger', 'error'): 'logging.error',
+    ('Logger', 'exception'): 'logging.error', ('Logger', 'log'): 'logging.info',
+    ('Headers', 'get'): 'headers.get', ('File', 'read'): 'file.read', ('File', 'write'): 'file.write',
+    ('File', 'flush'): 'file.write',
+}
+
+
 def opaque_getattr(ex, base, attr, node):
     cls = base.cls
+    if (cls, attr) in OPAQUE_METHODS:
+        return VBuiltin(OPAQUE_METHODS[(cls, attr)], base)
     spec = ex.class_specs.get(cls) if cls else None
     if spec and attr in spec:
         s = spec[attr]
@@ -1173,8 +1184,20 @@ def _replace(ex, fn, args, kw, node):
     cs, ca, cb = s.concrete(), a.concrete(), b.concrete()
     if cs is not None and ca is not None and cb is not None:
         return VStr(cs.replace(ca, cb))
+    r = z3.String(ex.fresh_name('repl'))
+    if ca is not None and cb is not None and len(ca) == 1 and ca not in cb:
+        # single character replaced by text that does not contain it: the character is gone,
+        # and no other character appears that was in neither the subject nor the replacement
+        ex.used_assumptions.add('A-BUILTIN: s.replace(c, t) contains no c (c not in t) and introduces only characters of t')
+        ex.assume(z3.Not(z3.Contains(r, z3.StringVal(ca))))
+        for ch in ('\r', '\n', '\t', '"', "'", '\\', '<', '>', '&', ':', '/'):
+            if ch != ca and ch not in cb:
+                ex.assume(z3.Implies(z3.Not(z3.Contains(s.t, z3.StringVal(ch))), z3.Not(z3.Contains(r, z3.StringVal(ch)))))
+        if len(cb) == 1:
+            ex.assume(z3.Length(r) == z3.Length(s.t))
+        return VStr(r)
     ex.used_assumptions.add('A-BUILTIN: str.replace on symbolic text is an opaque string')
-    return VStr(z3.String(ex.fresh_name('repl')))
+    return VStr(r)
 
 
 @builtin('str.split', 'str.rsplit')
@@ -1303,3 +1326,35 @@ def hash_term(ex, v, node=None):
 @builtin('hash')
 def _hash(ex, fn, args, kw, node):
     return VInt(hash_term(ex, args[0], node))
+
+
+@builtin('headers.get')
+def _headers_get(ex, fn, args, kw, node):
+    """email.message.Message.get(name, default): a str when the header is present, else the default
+    (A-LIB); repeated lookups of the same name agree."""
+    h = fn.self_val
+    name = ex.res(args[0])
+    default = args[1] if len(args) > 1 else kw.get('failobj', NONE)
+    if not isinstance(name, VStr):
+        ex.limit('header name is not a string', node)
+    present = z3.Function('hdr_present', RefSort, z3.StringSort(), z3.BoolSort())(h.t, name.t)
+    value = z3.Function('hdr_value', RefSort, z3.StringSort(), z3.StringSort())(h.t, name.t)
+    ex.used_assumptions.add('A-LIB: headers.get(name, default) returns a str for a present header, else the default')
+    return VUnion([(z3.Not(present), default), (present, VStr(value))])
+
+
+@builtin('file.read')
+def _file_read(ex, fn, args, kw, node):
+    ex.used_assumptions.add('A-LIB: rfile.read(n) returns bytes and does not raise')
+    return VOpaque(z3.Const(ex.fresh_name('bytes'), RefSort), 'bytes')
+
+
+@builtin('file.write')
+def _file_write(ex, fn, args, kw, node):
+    ex.used_assumptions.add('A-LIB: wfile.write/flush do not raise')
+    return NONE
+
+
+@builtin('http.client.responses.get')
+def _http_responses_get(ex, fn, args, kw, node):
+    return VStr(z3.String(ex.fresh_name('reason')))
